@@ -589,6 +589,43 @@ def _validate_with(ctx, body, inputs, kwargs, actual_sym, extra, every, tol=1e-6
     ctx.stats.validated += 1
 
 
+def _fapps(t, acc):
+    """ids of the applications f(y,x) of the user function inside a z3 term"""
+    todo, seen = [t], set()
+    while todo:
+        x = todo.pop()
+        i = x.get_id()
+        if i in seen:
+            continue
+        seen.add(i)
+        if z3.is_app(x):
+            if x.num_args() == 2 and x.decl().name() == "f":
+                acc.add(i)
+            todo.extend(x.children())
+    return acc
+
+
+def _holds_on_cone(ctx, terms, support):
+    """cone-of-influence pre-check of a per-pixel obligation: decide it under only those path constraints that do not mention
+    the user function at another pixel's points.  Dropping path constraints weakens the hypothesis, so `unsat` here implies
+    `unsat` under the full path condition (pixels are independent; without this z3's nlsat wanders through the other pixels)."""
+    import time
+    keep = [c for c in ctx.constraints if _fapps(c, set()) <= support]
+    s = z3.Solver()
+    s.set("timeout", ctx.timeout_ms)
+    s.add(*keep)
+    s.add(z3.Not(z3.And(*terms)))
+    t0 = time.time()
+    r = str(s.check())
+    ctx.stats.queries += 1
+    ctx.stats.solver_time += time.time() - t0
+    if r == "unsat":
+        ctx.stats.obligations += 1
+        ctx.stats.discharged += 1
+        return True
+    return False
+
+
 def case_iterate(ctx, mask_name, steps, geom, rel_set, route="sampler"):
     mask = listed_mask(mask_name)
     H, W = mask.shape
@@ -615,6 +652,11 @@ def case_iterate(ctx, mask_name, steps, geom, rel_set, route="sampler"):
         terms = [t if not isinstance(t, (bool, np.bool_)) else z3.BoolVal(bool(t)) for t in terms]
         known = {"iterate-all-zero-early-exit": region} if region is not None else None
         # the full claim in exact real arithmetic (decision boundaries included)
+        support = set()
+        for v_ in vals:
+            _fapps(V.to_real_term(v_), support)
+        if len(pos) > 1 and _holds_on_cone(ctx, terms, support):
+            continue
         n_before = len(ctx.stats.candidates)
         if not ctx.check(k, terms, known=known):
             # violated: prefer a counterexample whose decisions are all MARGIN away from their boundaries, because its float64
